@@ -5,6 +5,8 @@ import (
 	"go/constant"
 	"go/token"
 	"go/types"
+	"regexp"
+	"regexp/syntax"
 	"strings"
 
 	"dtnverif/core"
@@ -353,44 +355,7 @@ func C02(p *core.Program, r *core.Report) {
 	}
 	r.Count("rule guards", len(guards))
 	r.Min("rule guards", 15)
-	// every regular expression the endpoint code compiles is a whole-string
-	// matcher: its constant pattern is anchored at both ends, so MatchString /
-	// FindStringSubmatch cannot accept a string with a valid substring only.
-	nre := 0
-	scan := func(f *ssa.Function) {
-		core.EachInstrDeep(f, func(g *ssa.Function, in ssa.Instruction) {
-			cc, ok := in.(*ssa.Call)
-			if !ok {
-				return
-			}
-			cn := core.CalleeName(cc)
-			if !core.NameIs(cn, "regexp.MustCompile") && !core.NameIs(cn, "regexp.Compile") {
-				return
-			}
-			nre++
-			key := "regexp-anchored/" + fname(g)
-			k, isC := core.Arg(cc, 0).(*ssa.Const)
-			if !isC || k.Value == nil || k.Value.Kind() != constant.String {
-				r.Unknown(key, "the pattern compiled here is a constant", p.Pos(cc.Pos()), "pattern is not a compile-time constant")
-				return
-			}
-			pat := constant.StringVal(k.Value)
-			key += "/" + pat
-			head := strings.HasPrefix(pat, "^") || strings.HasPrefix(pat, `\A`)
-			tail := (strings.HasSuffix(pat, "$") && !strings.HasSuffix(pat, `\$`)) || strings.HasSuffix(pat, `\z`)
-			r.Check(head && tail, key, "an endpoint regular expression is anchored at both ends (^…$), so it decides the whole string", p.Pos(cc.Pos()), "", "pattern is not anchored at both ends: a string merely containing a match is accepted")
-		})
-	}
-	for _, f := range p.RepoFuncs() {
-		if f.Pkg == p.Pkg(bp7) && f.Parent() == nil {
-			scan(f)
-		}
-	}
-	if initFn := p.Pkg(bp7).Func("init"); initFn != nil {
-		scan(initFn)
-	}
-	r.Count("endpoint regexps", nre)
-	r.Min("endpoint regexps", 3)
+	checkEndpointRegexps(p, r)
 	// IsExceeded is Count > Limit
 	ie := p.Func(bp7, "HopCountBlock", "IsExceeded")
 	okIE := false
@@ -510,4 +475,140 @@ func varargsElems(c *ssa.Call) []ssa.Value {
 		}
 	}
 	return out
+}
+
+// checkEndpointPatternLanguage decides two facts about the language of a
+// constant endpoint pattern from its syntax tree (regexp/syntax; the pattern is
+// a compile-time constant of the repository, nothing of dtn7 is executed):
+// (1) it contains no "any character" operator and every character class lies
+// within the visible ASCII characters (RFC: demux = *VCHAR) — blank, TAB, NUL,
+// CR, DEL, non-ASCII bytes are not part of an endpoint URI; (2) a capture group
+// that matches decimal numbers does not accept a leading zero ("ipn:01.1" and
+// "ipn:1.1" would name one endpoint: text and structure would not determine
+// each other).
+func checkEndpointPatternLanguage(p *core.Program, r *core.Report, fn *ssa.Function, at ssa.Instruction, pat string) {
+	re, err := syntax.Parse(pat, syntax.Perl)
+	key := "regexp-language/" + fname(fn) + "/" + pat
+	if err != nil {
+		r.Unknown(key, "the endpoint pattern parses", p.Pos(at.Pos()), err.Error())
+		return
+	}
+	var bad []string
+	var numericGroups []*syntax.Regexp
+	// only what a capture group matches ends up in the endpoint structure (an uncaptured rest is a pre-filter
+	// whose text is handed to the scheme's own, anchored parser)
+	var walk func(x *syntax.Regexp, captured bool)
+	walk = func(x *syntax.Regexp, captured bool) {
+		switch x.Op {
+		case syntax.OpAnyChar, syntax.OpAnyCharNotNL:
+			if captured {
+				bad = append(bad, "'.' matches any character")
+			}
+		case syntax.OpCharClass:
+			for i := 0; captured && i+1 < len(x.Rune); i += 2 {
+				if x.Rune[i] < 0x21 || x.Rune[i+1] > 0x7e {
+					bad = append(bad, fmt.Sprintf("character class %s reaches outside the visible ASCII characters", x.String()))
+					break
+				}
+			}
+		case syntax.OpLiteral:
+			for _, c := range x.Rune {
+				if captured && (c < 0x21 || c > 0x7e) {
+					bad = append(bad, fmt.Sprintf("literal %q outside the visible ASCII characters", c))
+				}
+			}
+		case syntax.OpCapture:
+			captured = true
+			if onlyDigits(x.Sub[0]) {
+				numericGroups = append(numericGroups, x.Sub[0])
+			}
+		}
+		for _, sub := range x.Sub {
+			walk(sub, captured)
+		}
+	}
+	walk(re, false)
+	r.Check(len(bad) == 0, key+"/visible-ascii", "what an endpoint pattern captures consists of visible ASCII characters only (no '.', no class beyond 0x21-0x7e): blank, control and non-ASCII characters are not part of an endpoint URI", p.Pos(at.Pos()), "", strings.Join(bad, "; "))
+	for i, g := range numericGroups {
+		sub, err := regexp.Compile("^(?:" + g.String() + ")$")
+		if err != nil {
+			r.Unknown(fmt.Sprintf("%s/number#%d", key, i+1), "numeric group compiles", p.Pos(at.Pos()), err.Error())
+			continue
+		}
+		lead := sub.MatchString("01") || sub.MatchString("00") || sub.MatchString("007")
+		plain := sub.MatchString("1") && sub.MatchString("10") && sub.MatchString("18446744073709551615")
+		r.Check(!lead && plain, fmt.Sprintf("%s/number#%d", key, i+1), "a decimal number in an endpoint URI has exactly one text form: the numeric group "+g.String()+" accepts 1, 10, 2^64-1 and no leading zeros", p.Pos(at.Pos()), "", fmt.Sprintf("accepts a leading zero: %v; accepts plain numbers: %v", lead, plain))
+	}
+}
+
+// onlyDigits: every character the expression can match is a decimal digit.
+func onlyDigits(x *syntax.Regexp) bool {
+	switch x.Op {
+	case syntax.OpCharClass:
+		for i := 0; i+1 < len(x.Rune); i += 2 {
+			if x.Rune[i] < '0' || x.Rune[i+1] > '9' {
+				return false
+			}
+		}
+		return len(x.Rune) > 0
+	case syntax.OpLiteral:
+		for _, c := range x.Rune {
+			if c < '0' || c > '9' {
+				return false
+			}
+		}
+		return true
+	case syntax.OpPlus, syntax.OpStar, syntax.OpQuest, syntax.OpRepeat, syntax.OpConcat, syntax.OpAlternate, syntax.OpCapture:
+		for _, s := range x.Sub {
+			if !onlyDigits(s) {
+				return false
+			}
+		}
+		return len(x.Sub) > 0
+	}
+	return false
+}
+
+// checkEndpointRegexps: anchoring and language of every regular expression of
+// the endpoint code (shared by C02 and C17).
+func checkEndpointRegexps(p *core.Program, r *core.Report) {
+	// every regular expression the endpoint code compiles is a whole-string
+	// matcher: its constant pattern is anchored at both ends, so MatchString /
+	// FindStringSubmatch cannot accept a string with a valid substring only.
+	nre := 0
+	scan := func(f *ssa.Function) {
+		core.EachInstrDeep(f, func(g *ssa.Function, in ssa.Instruction) {
+			cc, ok := in.(*ssa.Call)
+			if !ok {
+				return
+			}
+			cn := core.CalleeName(cc)
+			if !core.NameIs(cn, "regexp.MustCompile") && !core.NameIs(cn, "regexp.Compile") {
+				return
+			}
+			nre++
+			key := "regexp-anchored/" + fname(g)
+			k, isC := core.Arg(cc, 0).(*ssa.Const)
+			if !isC || k.Value == nil || k.Value.Kind() != constant.String {
+				r.Unknown(key, "the pattern compiled here is a constant", p.Pos(cc.Pos()), "pattern is not a compile-time constant")
+				return
+			}
+			pat := constant.StringVal(k.Value)
+			key += "/" + pat
+			checkEndpointPatternLanguage(p, r, g, cc, pat)
+			head := strings.HasPrefix(pat, "^") || strings.HasPrefix(pat, `\A`)
+			tail := (strings.HasSuffix(pat, "$") && !strings.HasSuffix(pat, `\$`)) || strings.HasSuffix(pat, `\z`)
+			r.Check(head && tail, key, "an endpoint regular expression is anchored at both ends (^…$), so it decides the whole string", p.Pos(cc.Pos()), "", "pattern is not anchored at both ends: a string merely containing a match is accepted")
+		})
+	}
+	for _, f := range p.RepoFuncs() {
+		if f.Pkg == p.Pkg(bp7) && f.Parent() == nil {
+			scan(f)
+		}
+	}
+	if initFn := p.Pkg(bp7).Func("init"); initFn != nil {
+		scan(initFn)
+	}
+	r.Count("endpoint regexps", nre)
+	r.Min("endpoint regexps", 3)
 }
